@@ -262,6 +262,12 @@ Proof.
     apply send_request_pframe in W. exact W.
 Qed.
 
+Lemma retry_task_pframe c s reuse h s' ev : fin_exc s = None -> run_task c s (TRetry reuse h) = (s', ev) -> pframe s s'.
+Proof.
+  intros E H. cbn [run_task] in H. rewrite E in H. cbn [is_some] in H.
+  destruct reuse; [eapply qon_pframe; eauto|eapply send_request_pframe; eauto].
+Qed.
+
 Lemma step_pframe c s o s' ev : is_next_page o = false -> step c s o = (s', ev) -> pframe s s'.
 Proof.
   intros NP H. destruct o as [|i r|k| |h0 p|k|pp]; cbn [step] in H; [| | | | | |discriminate].
@@ -272,7 +278,11 @@ Proof.
     { split; [reflexivity|]. exists 0%nat. unfold pages. cbn [attempts set_attempts]. rewrite pages_mark_done, app_nil_r. reflexivity. }
     destruct (a_prep a); [inversion H; subst; eapply pframe_trans; [exact P0|apply submit_pframe]|].
     destruct (Nat.eqb (a_page a) (page_no s)); [|inversion H; subst; exact P0].
-    eapply pframe_trans; [exact P0|eapply set_result_pframe; eauto].
+    destruct (resp_current_cases _ _ _ _ _ _ H) as [H'|(k & tag & dcl & reuse & s2 & ev2 & -> & I & Pl & F & Sh & R & -> & ->)].
+    { eapply pframe_trans; [exact P0|eapply set_result_pframe; eauto]. }
+    apply (pframe_trans s (bump_counters (tick_consult (set_attempts s (mark_done i (attempts s)))) dcl)).
+    { eapply pframe_trans; [exact P0|apply pframe_same; reflexivity]. }
+    apply (pframe_trans _ s2); [eapply retry_task_pframe; [|exact R]; exact F|apply pframe_same; reflexivity].
   - destruct (nth_error (queue s) k) as [t|]; [|inversion H; subst; apply pframe_same; reflexivity].
     apply (pframe_trans s (set_queue s (remove_nth k (queue s)))); [apply pframe_same; reflexivity|].
     destruct t as [reuse h|h qs ks0|h r]; cbn [run_task] in H.
@@ -393,7 +403,15 @@ Proof.
     + inversion H; subst.
       destruct (submit_J (set_attempts s (mark_done i (attempts s))) (a_host a) (TAfterPrepare (a_host a) r) eq_refl
                   (fun _ _ E => ltac:(discriminate)) J0 (not_completed s Hres Hexc)) as [G|[G|G]]; [left; exact G|right; left; exact G|right; right; exact G].
-    + destruct (Nat.eqb (a_page a) (page_no s)) eqn:Pg; [eapply set_result_J in H; eauto|].
+    + destruct (Nat.eqb (a_page a) (page_no s)) eqn:Pg.
+      { destruct (resp_current_cases _ _ _ _ _ _ H) as [H'|(k & tag & dcl & reuse & s2 & ev2 & -> & I & Pl & F & Sh & R & -> & ->)].
+        - eapply set_result_J in H'; eauto.
+        - left. set (S0 := bump_counters (tick_consult (set_attempts s (mark_done i (attempts s)))) dcl) in *.
+          assert (JS : Jx S0 [a_host a]) by (eapply Jx_same; [|exact J0]; repeat split).
+          assert (J2 : Jx s2 [a_host a]).
+          { cbn [run_task] in R. change (fin_exc S0) with (fin_exc s) in R. rewrite Hexc in R. cbn [is_some] in R.
+            destruct reuse; [exact (proj1 (Jx_qon _ _ _ _ _ _ _ JS R))|unfold send_request in R; eapply Jx_walk; eauto]. }
+          destruct (Jx_set_err s2 [a_host a] (a_host a) (EResp k tag) J2) as [Ja Jb]. eapply Jx_resolve; eauto. }
       exfalso. apply Nat.eqb_neq in Pg. apply Pg. symmetry.
       unfold all_cur, pages in AC. rewrite Forall_forall in AC. apply AC. apply in_map. eapply nth_error_In; eauto.
   - destruct (nth_error (queue s) k) as [t|] eqn:N; [|inversion H; subst; left; exact J].
@@ -462,6 +480,12 @@ Proof.
     destruct (a_done a); [inversion H; subst; left; reflexivity|].
     destruct (a_prep a); [inversion H; subst; left; exact (submit_res (set_attempts s (mark_done i (attempts s))) _)|].
     destruct (Nat.eqb (a_page a) (page_no s)); [|inversion H; subst; left; reflexivity].
+    destruct (resp_current_cases _ _ _ _ _ _ H) as [H'|(k1 & tag1 & dcl1 & reuse & s2 & ev2 & -> & I & Pl & F & Sh & R & -> & ->)].
+    2:{ left. cbn [fin_res set_err]. cbn [run_task] in R.
+        change (fin_exc (bump_counters (tick_consult (set_attempts s (mark_done i (attempts s)))) dcl1)) with (fin_exc s) in R.
+        change (fin_exc (set_attempts s (mark_done i (attempts s)))) with (fin_exc s) in F. rewrite F in R. cbn [is_some] in R.
+        destruct reuse; [apply qon_res in R; exact R|apply walk_frame_ok in R; apply R]. }
+    clear H. rename H' into H.
     set (s0 := set_attempts s (mark_done i (attempts s))) in *.
     change (res_keep s0 s').
     destruct r; cbn [set_result] in H;
